@@ -471,22 +471,24 @@ def rankStep (p : Program) (rk : Ranks) : Ranks :=
     (h, need))
 
 /-- least rank function with `pos ⇒ ≤`, `neg/agg ⇒ <`, if one exists with ranks ≤ #heads. -/
+def ranksOk (p : Program) (rk : Ranks) : Bool :=
+  p.all (fun r =>
+    r.weakDeps.all (fun d => Ranks.get rk d ≤ Ranks.get rk r.hrel) &&
+    r.strictDeps.all (fun d => Ranks.get rk d < Ranks.get rk r.hrel))
+
 def stratify (p : Program) : Option Ranks :=
   let n := (heads p).length
   let rk := iter (rankStep p) (n + 1) ((heads p).map (fun h => (h, 0)))
-  if rankStep p rk == rk && rk.all (fun hr => hr.2 ≤ n) then some rk else none
+  -- the computed ranks are accepted only if they are a fix-point, bounded, and *are* a stratification
+  if rankStep p rk == rk && rk.all (fun hr => hr.2 ≤ n) && ranksOk p rk then some rk else none
 
 def DB.set (db : DB) (r : String) (ts : List Tuple) : DB := (r, ts) :: db
 
 /-- one naive round of the rules of one stratum: every head gets `old ∪ derived`. -/
 def roundStratum (hs : List String) (p : Program) (db : DB) : Option DB :=
-  hs.foldl (fun acc h =>
-    match acc with
-    | none => none
-    | some d =>
-      match evalRules db.get (clausesOf p h) with
-      | some ts => some (d.set h (unionT (db.get h) ts))
-      | none => none) (some db)
+  match optMapM (fun h => (evalRules db.get (clausesOf p h)).map (fun ts => (h, unionT (db.get h) ts))) hs with
+  | some upd => some (upd ++ db)
+  | none => none
 
 def sizeOn (hs : List String) (db : DB) : Nat := hs.foldl (fun n h => n + (db.get h).length) 0
 
@@ -523,7 +525,7 @@ def pmEval (fuel : Nat) (p : Program) (edb : DB) : Option DB :=
   match stratify p with
   | none => none
   | some rk =>
-    let start : DB := (heads p).foldl (fun d h => d.set h (dedupT (edb.get h))) edb
+    let start : DB := (heads p).map (fun h => (h, dedupT (edb.get h))) ++ edb
     match evalStrata p rk fuel (List.range ((heads p).length + 1)) start with
     | some db =>
       let m := overlay (heads p) db edb
